@@ -171,9 +171,12 @@ func (api *PublicFilterAPI) NewPendingTransactionFilter() rpc.ID {
 
 				api.filtersMu.Lock()
 				if f, found := api.filters[pendingTxSub.ID()]; found {
-					ethTx, ok := tx.GetMsgs()[0].(*evmtypes.MsgEthereumTx)
-					if ok {
-						f.hashes = append(f.hashes, ethTx.AsTransaction().Hash())
+					// the Tx event is published for every transaction of a block, also those which failed
+					// basic validation: no message at all, or a payload that AsTransaction would panic on
+					if msgs := tx.GetMsgs(); len(msgs) > 0 {
+						if ethTx, ok := msgs[0].(*evmtypes.MsgEthereumTx); ok && ethTx.ValidateBasic() == nil {
+							f.hashes = append(f.hashes, ethTx.AsTransaction().Hash())
+						}
 					}
 				}
 				api.filtersMu.Unlock()
@@ -233,9 +236,11 @@ func (api *PublicFilterAPI) NewPendingTransactions(ctx context.Context) (*rpc.Su
 					continue
 				}
 
-				ethTx, ok := tx.GetMsgs()[0].(*evmtypes.MsgEthereumTx)
-				if ok {
-					_ = notifier.Notify(rpcSub.ID, ethTx.AsTransaction().Hash()) // #nosec G703
+				// see NewPendingTransactionFilter: nothing may be assumed about the messages
+				if msgs := tx.GetMsgs(); len(msgs) > 0 {
+					if ethTx, ok := msgs[0].(*evmtypes.MsgEthereumTx); ok && ethTx.ValidateBasic() == nil {
+						_ = notifier.Notify(rpcSub.ID, ethTx.AsTransaction().Hash()) // #nosec G703
+					}
 				}
 			case <-rpcSub.Err():
 				pendingTxSub.Unsubscribe(api.events)
